@@ -364,3 +364,22 @@ package kvindex
 //@   ensures stored: forall j :: 0 <= j && j < wr(out) ==> kvhas(entryKeyOf(field, 1, astr(value), out[j]))
 //@   ensures distinct: forall i, j :: 0 <= i && i < j && j < wr(out) ==> out[i] != out[j]
 //@   ensures readonly: same(kvdom(), old(kvdom())) && same(kvvals(), old(kvvals())) && kvwrites() == old(kvwrites())
+
+// FieldTerms' producer: one value per term key stored under the field's term prefix, in key
+// order; nothing is written.
+//@ func (*KVIndex).FieldTerms$1
+//@   vars field out idx termPrefix it ttype term
+//@   property C09
+//@   option prelude=keys,kv,idxkeys,idxcount,json,ieee
+//@   option load=kvi
+//@   option globals=kvindex
+//@   modifies alloc KV.it Ch SH. Box.
+//@   requires nonnil: idx != nil && idx.KV != nil
+//@   requires fresh: out != nil && wr(out) == 0 && !closed(out)
+//@   loop 101 invariant store: same(kvdom(), old(kvdom())) && same(kvvals(), old(kvvals())) && kvwrites() == old(kvwrites())
+//@   loop 101 invariant open: !closed(out)
+//@   loop 101 invariant iter: itvalid() ==> kvhas(itpos()) && ble(termPrefix, itpos())
+//@   loop 101 invariant scan: (itvalid() ==> wr(out) == pbelow(kvdom(), termPrefix, itpos())) && (!itvalid() ==> wr(out) == pcount(kvdom(), termPrefix))
+//@   ensures closed: closed(out)
+//@   ensures all: wr(out) == pcount(kvdom(), TermPrefix(field))
+//@   ensures readonly: same(kvdom(), old(kvdom())) && same(kvvals(), old(kvvals())) && kvwrites() == old(kvwrites())
